@@ -608,7 +608,7 @@ Qed.
 Lemma grun_monitor p m g tr pos v : grun m g tr = Some v -> monitor_from p m pos tr = None.
 Proof.
   revert m g pos; induction tr as [|[o r] t IH]; intros m g pos H; simpl in *; auto.
-  destruct (mstep m o r) as [[|tag] m']; [|discriminate]. eapply IH; eauto.
+  unfold judge. destruct (mstep m o r) as [[|tag] m']; [|discriminate]. eapply IH; eauto.
 Qed.
 
 (* T1: the monitor (every clause, hence the clauses of each property) accepts every trace of the model *)
@@ -878,20 +878,20 @@ Lemma SItx_ack c m g m1 etc :
   m_nesn m1 = m_nesn m /\ m_rxq m1 = m_rxq m.
 Proof.
   intros (D & St & Fc & Ca & Co & Tc) M. unfold m_ack in M. unfold ack_ghost. rewrite D in *.
+  unfold tx_in_flight in Ca.
   destruct (m_cur m) as [|se|sd] eqn:Ec.
   - rewrite <- St, eqb_reflx in M. inversion M; subst; clear M. split; auto.
     unfold SItx, tx_in_flight. simpl. rewrite Ec. repeat split; auto. lia.
   - destruct (Bool.eqb se (c_nesn c)) eqn:X; inversion M; subst; clear M; (split; [|auto]).
     + unfold SItx, tx_in_flight. simpl. rewrite Ec. repeat split; auto. lia.
-    + unfold SItx, tx_in_flight in *. simpl. rewrite Ec in *. repeat split; auto; try lia.
-      destruct se, (c_nesn c); simpl in *; congruence.
+    + unfold SItx, tx_in_flight. simpl. repeat split; auto; try lia.
   - destruct St as [St Ne].
     assert (XY : Bool.eqb sd (c_nesn c) = Bool.eqb (c_nesn c) sd) by (destruct sd, (c_nesn c); reflexivity).
     destruct (Bool.eqb sd (c_nesn c)) eqn:X; inversion M; subst; clear M; (split; [|auto]).
-    + unfold SItx, tx_in_flight. simpl. rewrite Ec. repeat split; auto. lia.
-    + unfold SItx, tx_in_flight in *. simpl. rewrite Ec in *. rewrite <- XY in Ca.
+    + rewrite <- XY in Ca. unfold SItx, tx_in_flight. simpl. rewrite Ec, <- XY. repeat split; auto. lia.
+    + rewrite <- XY in Ca.
       destruct (m_txq m) as [|p t] eqn:Eq; [congruence|]. simpl in *.
-      inversion Fc; subst. repeat split; auto.
+      inversion Fc; subst. unfold SItx, tx_in_flight. simpl. repeat split; auto.
       * destruct sd, (c_nesn c); simpl in *; congruence.
       * rewrite app_nil_r. exact Ca.
       * rewrite <- app_assoc. exact Co.
@@ -907,4 +907,417 @@ Qed.
 Lemma tc_ok_inv m tc etc : m_txdead m = false -> negb (tc_ok m tc etc) = false -> tc = etc.
 Proof.
   unfold tc_ok. intros D H. rewrite D in H. simpl in H. apply negb_false_iff, N.eqb_eq in H. exact H.
+Qed.
+
+(* ---- one operation of the closed loop ---- *)
+
+Definition cen_after (c : central) (lost : bool) (r : out) : central :=
+  match r with
+  | OResp _ _ h b _ _ => if lost then c else cen_recv c h b
+  | _ => c
+  end.
+
+Lemma cen_new_ack_tx c x h b :
+  c_nesn (cen_new (cen_ack c x) h b) = c_nesn (cen_new c h b) /\
+  c_acc (cen_new (cen_ack c x) h b) = c_acc (cen_new c h b).
+Proof.
+  unfold cen_new, cen_ack. destruct (Bool.eqb x (c_sn c)); simpl; auto.
+  destruct (Bool.eqb (has h sn_flag) (c_nesn c)); simpl; auto.
+Qed.
+
+Lemma cen_new_rx c h b :
+  c_sn (cen_new c h b) = c_sn c /\ c_cur (cen_new c h b) = c_cur c /\ c_done (cen_new c h b) = c_done c.
+Proof. unfold cen_new. destruct (Bool.eqb _ _); simpl; auto. Qed.
+
+Lemma cen_ack_tx c x : c_nesn (cen_ack c x) = c_nesn c /\ c_acc (cen_ack c x) = c_acc c.
+Proof. unfold cen_ack. destruct (Bool.eqb _ _); simpl; auto. Qed.
+
+(* the common tail: the response is checked by the monitor and then lost or seen by the central *)
+Lemma SI_resp c m g tag sz h b m' (lost : bool) :
+  SI c m g -> c_cur c <> None -> check_resp tag m sz h b = (Ok, m') ->
+  SI (if lost then c else cen_recv c h b) m' g.
+Proof.
+  intros [Srx Stx] Cur C.
+  destruct (check_resp_nesn _ _ _ _ _ _ C) as (Hn & Mn & Mq & Mo).
+  destruct (SItx_resp c m g tag sz h b m' Stx C) as (T1 & T2).
+  destruct lost.
+  - split; auto. apply (SIrx_frame c m g); auto.
+  - rewrite cen_recv_split, Hn. split.
+    + destruct (cen_new_rx (cen_ack c (m_nesn m)) h b) as (A1 & A2 & A3).
+      apply (SIrx_frame (cen_ack c (m_nesn m)) m g); auto. apply SIrx_cen_ack; auto.
+    + destruct (cen_new_ack_tx c (m_nesn m) h b) as (A1 & A2).
+      apply (SItx_frame (cen_new c h b) m' g); auto.
+Qed.
+
+Lemma SI_count0 c m g : SI c m g -> SI c m (g_count g 0 0).
+Proof.
+  intros [Srx Stx]. split.
+  - apply (SIrx_frame c m g); auto. simpl. lia.
+  - apply (SItx_frame c m g); auto. simpl. lia.
+Qed.
+
+Lemma negb_eqb_false a b : negb (a =? b) = false -> a = b.
+Proof. intros H. apply negb_false_iff, N.eqb_eq in H. exact H. Qed.
+
+Lemma SItx_dead c m g : SItx c m g -> m_txdead m = false.
+Proof. intros (D & _). exact D. Qed.
+
+(* received() for the central's current PDU *)
+Lemma SI_rx c m g p md r m' lost :
+  SI c m g -> c_cur c = Some p ->
+  mstep m (Rx (cen_hl c p md) (snd p)) r = (Ok, m') ->
+  SI (cen_after c lost r) m' (gstep m g (Rx (cen_hl c p md) (snd p)) r).
+Proof.
+  intros S Cur H. pose proof S as [Srx Stx].
+  assert (P4 : fst p < 4) by (destruct Srx as (_ & _ & C & _); apply C; auto).
+  destruct (cen_hl_facts c p md P4) as (H1 & H2 & H3 & H4).
+  assert (CurN : c_cur c <> None) by congruence.
+  destruct r as [| | | | | |k sz h b rc tc|]; simpl in H; try discriminate.
+  - inversion H; subst. exact S.
+  - destruct k.
+    + (* received() *)
+      rewrite H2 in H.
+      destruct (m_ack m (c_nesn c)) as [m1 etc] eqn:MA.
+      destruct (m_accept m1 (cen_hl c p md) (snd p)) as [m2 erc] eqn:MACC.
+      destruct (check_resp t_nesn_rx m2 sz h b) as [[|tag] m3] eqn:C; [|discriminate].
+      destruct (negb (rc =? erc)) eqn:RC; [discriminate|].
+      destruct (negb (tc_ok m3 tc etc)) eqn:TC; [discriminate|]. inversion H; subst m3; clear H.
+      apply negb_eqb_false in RC. subst erc.
+      destruct (SItx_ack c m g m1 etc Stx MA) as (T1 & N1 & Q1).
+      set (g1 := ack_ghost m g (c_nesn c)) in *.
+      destruct (ack_ghost_rx m g (c_nesn c)) as (G1 & G2 & G3). fold g1 in G1, G2, G3.
+      assert (R1 : SIrx c m1 g1) by (apply (SIrx_frame c m g); auto).
+      destruct (SIrx_accept c m1 g1 p md m2 rc R1 Cur MACC) as (R2 & X1 & X2 & X3 & X4).
+      cbv zeta in R2.
+      assert (D3 : m_txdead m' = false).
+      { rewrite (check_resp_txdead _ _ _ _ _ _ _ C), X4. apply (SItx_dead c m1 _ T1). }
+      pose proof (tc_ok_inv m' tc etc D3 TC) as TE. subst etc.
+      simpl gstep. rewrite H2, MA. simpl fst. fold g1.
+      set (g2 := if Bool.eqb (has (cen_hl c p md) sn_flag) (m_nesn m1)
+                 then gw_acc g1 (g_acc g1 ++ [(llid (cen_hl c p md), snd p)]) else g1) in *.
+      assert (S2 : SI c m2 (g_count g2 rc tc)).
+      { split.
+        - apply (SIrx_frame c m2 (g_count g2 rc 0)); auto.
+        - apply (SItx_frame c m1 (g_count g1 0 tc)); auto;
+            unfold g2; destruct (Bool.eqb _ _); reflexivity. }
+      apply (SI_resp c m2 _ t_nesn_rx sz h b m' lost S2 CurN C).
+    + discriminate.
+    + (* no receive buffer: next_transmit() only *)
+      destruct (check_resp t_nesn_nobuf m sz h b) as [[|tag] m3] eqn:C; [|discriminate].
+      destruct (negb (rc =? 0)) eqn:RC; [discriminate|].
+      destruct (negb (tc =? 0)) eqn:TC; [discriminate|]. inversion H; subst m3; clear H.
+      apply negb_eqb_false in RC. apply negb_eqb_false in TC. subst rc tc.
+      simpl gstep. apply (SI_resp c m _ t_nesn_nobuf sz h b m' lost (SI_count0 c m g S) CurN C).
+Qed.
+
+(* acknowledge(): CRC ok, MIC failed *)
+Lemma SI_mic c m g p md r m' lost :
+  SI c m g -> c_cur c = Some p ->
+  mstep m (Mic (cen_hl c p md) (snd p)) r = (Ok, m') ->
+  SI (cen_after c lost r) m' (gstep m g (Mic (cen_hl c p md) (snd p)) r).
+Proof.
+  intros S Cur H. pose proof S as [Srx Stx].
+  assert (P4 : fst p < 4) by (destruct Srx as (_ & _ & C & _); apply C; auto).
+  destruct (cen_hl_facts c p md P4) as (H1 & H2 & H3 & H4).
+  assert (CurN : c_cur c <> None) by congruence.
+  destruct r as [| | | | | |k sz h b rc tc|]; simpl in H; try discriminate.
+  - inversion H; subst. exact S.
+  - destruct k.
+    + discriminate.
+    + rewrite H2, H4 in H. simpl gstep. rewrite H2, H4.
+      destruct (negb (fst p =? 0)) eqn:L0.
+      * destruct (m_ack m (c_nesn c)) as [m1 etc] eqn:MA.
+        destruct (check_resp t_nesn_mic m1 sz h b) as [[|tag] m3] eqn:C; [|discriminate].
+        destruct (negb (rc =? 0)) eqn:RC; [discriminate|].
+        destruct (negb (tc_ok m3 tc etc)) eqn:TC; [discriminate|]. inversion H; subst m3; clear H.
+        apply negb_eqb_false in RC. subst rc.
+        destruct (SItx_ack c m g m1 etc Stx MA) as (T1 & N1 & Q1).
+        set (g1 := ack_ghost m g (c_nesn c)) in *.
+        destruct (ack_ghost_rx m g (c_nesn c)) as (G1 & G2 & G3). fold g1 in G1, G2, G3.
+        assert (D3 : m_txdead m' = false).
+        { rewrite (check_resp_txdead _ _ _ _ _ _ _ C). apply (SItx_dead c m1 _ T1). }
+        pose proof (tc_ok_inv m' tc etc D3 TC) as TE. subst etc.
+        assert (S2 : SI c m1 (g_count g1 0 tc)).
+        { split; auto. apply (SIrx_frame c m g); auto. simpl. lia. }
+        apply (SI_resp c m1 _ t_nesn_mic sz h b m' lost S2 CurN C).
+      * destruct (check_resp t_nesn_mic m sz h b) as [[|tag] m3] eqn:C; [|discriminate].
+        destruct (negb (rc =? 0)) eqn:RC; [discriminate|].
+        destruct (negb (tc_ok m3 tc 0)) eqn:TC; [discriminate|]. inversion H; subst m3; clear H.
+        apply negb_eqb_false in RC. subst rc.
+        assert (D3 : m_txdead m' = false).
+        { rewrite (check_resp_txdead _ _ _ _ _ _ _ C). apply (SItx_dead c m _ Stx). }
+        pose proof (tc_ok_inv m' tc 0 D3 TC) as TE. subst tc.
+        apply (SI_resp c m _ t_nesn_mic sz h b m' lost (SI_count0 c m g S) CurN C).
+    + destruct (check_resp t_nesn_nobuf m sz h b) as [[|tag] m3] eqn:C; [|discriminate].
+      destruct (negb (rc =? 0)) eqn:RC; [discriminate|].
+      destruct (negb (tc =? 0)) eqn:TC; [discriminate|]. inversion H; subst m3; clear H.
+      apply negb_eqb_false in RC. apply negb_eqb_false in TC. subst rc tc.
+      simpl gstep. apply (SI_resp c m _ t_nesn_nobuf sz h b m' lost (SI_count0 c m g S) CurN C).
+Qed.
+
+(* the link layer calls the buffer *)
+Lemma SI_ll c m g o r m' :
+  SI c m g -> ll_op_ok o = true -> mstep m o r = (Ok, m') -> SI c m' (gstep m g o r).
+Proof.
+  intros S L H. pose proof S as [Srx Stx].
+  destruct o as [n|n| | |n hl body| | | |hl body|hl body| ]; simpl in L; try discriminate.
+  - destruct r; simpl in H; try discriminate; inversion H; subst; exact S.
+  - destruct r; simpl in H; try discriminate; inversion H; subst; exact S.
+  - destruct r; simpl in H; try discriminate; inversion H; subst. split.
+    + apply (SIrx_frame c m g); auto.
+    + apply (SItx_frame c m g); auto.
+  - (* Tx *)
+    apply andb_true_iff in L. destruct L as [L28 LB].
+    destruct r as [| | |ok| | | |]; simpl in H; try discriminate.
+    + inversion H; subst; exact S.
+    + destruct ok; [|inversion H; subst; exact S].
+      simpl gstep. destruct (m_stopped m); [inversion H; subst; exact S|].
+      rewrite L28 in H. inversion H; subst; clear H. split.
+      * apply (SIrx_frame c m g); auto.
+      * destruct Stx as (D & St & Fc & Ca & Co & Tc). unfold SItx, tx_in_flight in *. simpl.
+        assert (CT : counted (llid hl, body) = true) by exact LB.
+        repeat split; auto.
+        -- destruct (m_cur m); auto. destruct St as [St Ne]. split; auto.
+           destruct (m_txq m); simpl; congruence.
+        -- apply Forall_app. split; auto.
+        -- destruct (m_cur m); auto. destruct St as [St Ne]. destruct (m_txq m); [congruence|]. simpl in *. exact Ca.
+        -- rewrite Co, app_assoc. reflexivity.
+  - (* Pend *)
+    destruct r; simpl in H; try discriminate.
+    destruct (m_txdead m || _); inversion H; subst; exact S.
+  - (* NextRecv *)
+    destruct r; simpl in H; try discriminate.
+    + destruct (m_rxq m); inversion H; subst; exact S.
+    + destruct (m_rxq m) as [|[h' b'] t]; [discriminate|].
+      destruct (_ && _); inversion H; subst; exact S.
+  - (* FreeRecv *)
+    destruct r; simpl in H; try discriminate.
+    + destruct (m_rxq m) as [|x t] eqn:Eq; [discriminate|]. inversion H; subst; clear H. simpl gstep. split.
+      * destruct Srx as (A & B & C & D & E). unfold SIrx, rx_in_flight in *. simpl. rewrite Eq in *.
+        repeat split; auto. simpl. rewrite <- app_assoc. exact D.
+      * apply (SItx_frame c m g); auto.
+    + destruct (m_rxq m); inversion H; subst; exact S.
+Qed.
+
+Lemma SI_load c m g fresh :
+  SI c m g -> cpdu_ok fresh = true ->
+  SI (cen_load c fresh) m g /\ exists p, c_cur (cen_load c fresh) = Some p.
+Proof.
+  intros [Srx Stx] F. destruct (SIrx_load c m g fresh Srx F) as (R & N). split.
+  - split; auto. apply (SItx_frame c m g); auto; unfold cen_load; destruct (c_cur c); reflexivity.
+  - destruct (c_cur (cen_load c fresh)) as [p|]; [eauto|congruence].
+Qed.
+
+(* T2: the closed loop keeps the refinement relation and the alternating-bit invariant; the whole
+   trace is accepted by the monitor *)
+Lemma sys_run_inv cf evs : forall c s m g,
+  Rel cf s m -> SI c m g -> Forall (fun e => event_ok e = true) evs ->
+  exists m' g', grun m g (snd (sys_run cf (c, s) evs)) = Some (m', g') /\
+                Rel cf (snd (fst (sys_run cf (c, s) evs))) m' /\ SI (fst (fst (sys_run cf (c, s) evs))) m' g'.
+Proof.
+  induction evs as [|e t IH]; intros c s m g R S F.
+  - simpl. eauto.
+  - inversion F as [|? ? Fe Ft]; subst. simpl sys_run.
+    destruct e as [o|fresh md f lost]; simpl in Fe.
+    + (* link layer operation *)
+      simpl sys_step. destruct (step cf s o) as [s' r] eqn:E.
+      destruct (step_rel cf s m o s' r R E) as (m' & M & R').
+      pose proof (SI_ll c m g o r m' S Fe M) as S'.
+      destruct (IH c s' m' (gstep m g o r) R' S' Ft) as (m2 & g2 & G & R2 & S2).
+      destruct (sys_run cf (c, s') t) as [[c2 s2] tr2]. simpl in *.
+      rewrite M. eauto.
+    + (* connection event *)
+      destruct (SI_load c m g fresh S Fe) as (S1 & p & Cur).
+      simpl sys_step. set (c1 := cen_load c fresh) in *.
+      assert (CP : cen_pdu c1 = p) by (unfold cen_pdu; rewrite Cur; reflexivity).
+      destruct f; simpl event_op.
+      * (* the central's packet is lost *)
+        destruct (IH c1 s m g R S1 Ft) as (m2 & g2 & G & R2 & S2).
+        destruct (sys_run cf (c1, s) t) as [[c2 s2] tr2]. simpl in *. eauto.
+      * rewrite CP.
+        destruct (step cf s (Rx (cen_hl c1 p md) (snd p))) as [s' r] eqn:E.
+        destruct (step_rel cf s m _ s' r R E) as (m' & M & R').
+        pose proof (SI_rx c1 m g p md r m' lost S1 Cur M) as S'.
+        fold (cen_after c1 lost r). set (c2 := cen_after c1 lost r) in *.
+        destruct (IH c2 s' m' _ R' S' Ft) as (m2 & g2 & G & R2 & S2).
+        destruct (sys_run cf (c2, s') t) as [[c3 s3] tr3]. simpl in *.
+        rewrite M. eauto.
+      * rewrite CP.
+        destruct (step cf s (Mic (cen_hl c1 p md) (snd p))) as [s' r] eqn:E.
+        destruct (step_rel cf s m _ s' r R E) as (m' & M & R').
+        pose proof (SI_mic c1 m g p md r m' lost S1 Cur M) as S'.
+        fold (cen_after c1 lost r). set (c2 := cen_after c1 lost r) in *.
+        destruct (IH c2 s' m' _ R' S' Ft) as (m2 & g2 & G & R2 & S2).
+        destruct (sys_run cf (c2, s') t) as [[c3 s3] tr3]. simpl in *.
+        rewrite M. eauto.
+Qed.
+
+(* ---- the end-to-end statements ---- *)
+
+(* what the system theorems conclude about the final central c, the final model state s and the
+   monitor/ghost (m, g) of the trace *)
+Definition end_to_end (c : central) (s : state) (m : mon) (g : ghost) : Prop :=
+  (* the monitor's FIFOs are the model's rings *)
+  m_rxq m = map raw (r_q (rxr s)) /\ m_txq m = map key (r_q (txr s)) /\ m_nesn m = nesn s /\
+  (* receive direction: the PDUs handed to the link layer (freed ++ still queued) are exactly the
+     storable PDUs the central has completed plus the one the peripheral has already accepted:
+     in order, each exactly once *)
+  g_acc g = c_done c ++ rx_in_flight c m /\
+  map pkey (g_freed g ++ m_rxq m) = filter storable (c_done c ++ rx_in_flight c m) /\
+  (* transmit direction: what the central accepted is what left the transmit FIFO plus possibly its
+     head: a prefix of the committed PDUs, in order, each exactly once; a PDU leaves the FIFO only
+     after the central accepted it *)
+  filter counted (c_acc c) = g_popped g ++ tx_in_flight c m /\
+  g_comm g = g_popped g ++ m_txq m /\
+  (* packet counters *)
+  g_rxc g = nlen (filter counted (c_done c ++ rx_in_flight c m)) /\
+  g_txc g = nlen (g_popped g).
+
+Theorem closed_loop_end_to_end (cf : cfg) (evs : list event) :
+  Forall (fun e => event_ok e = true) evs ->
+  exists m g,
+    grun (minit cf) g0 (snd (sys_run cf (cen_init, init cf) evs)) = Some (m, g) /\
+    end_to_end (fst (fst (sys_run cf (cen_init, init cf) evs))) (snd (fst (sys_run cf (cen_init, init cf) evs))) m g.
+Proof.
+  intros F.
+  destruct (sys_run_inv cf evs cen_init (init cf) (minit cf) g0 (Rel_init cf) (SI_init cf) F)
+    as (m & g & G & R & [Srx Stx]).
+  exists m, g. split; auto.
+  destruct Srx as (A & B & C & D & E). destruct Stx as (Dd & St & Fc & Ca & Co & Tc).
+  destruct R as [Ro Rn Rq Rg Rs Rm Rt]. destruct (Rt Dd) as (Tq & _).
+  unfold end_to_end. rewrite <- A. repeat split; auto.
+Qed.
+
+(* nonce synchronisation (C16): whenever the central sends a PDU the peripheral has not accepted
+   yet, the peripheral's receive counter equals the number of non-empty PDUs the central has
+   completed, i.e. the packet counter the central encrypts that PDU with; symmetric for the other
+   direction *)
+Lemma end_to_end_nonce c s m g :
+  end_to_end c s m g ->
+  (Bool.eqb (m_nesn m) (c_sn c) = true -> g_rxc g = nlen (filter counted (c_done c))) /\
+  (tx_in_flight c m = [] -> g_txc g = nlen (filter counted (c_acc c))).
+Proof.
+  intros (_ & _ & _ & _ & _ & Ca & _ & Rc & Tc). split.
+  - intros E. unfold rx_in_flight in Rc. rewrite E, app_nil_r in Rc. exact Rc.
+  - intros E. rewrite Ca, E, app_nil_r. exact Tc.
+Qed.
+
+(* (c) a full receive buffer never acknowledges a PDU it did not store; and
+   C17: a PDU failing the MIC check is never acknowledged, stored or counted *)
+Lemma no_buffer_no_ack cf s hl body :
+  alloc_front (c_R cf) (rxr s) (max_rx s + c_o cf) = None ->
+  nesn (fst (step cf s (Rx hl body))) = nesn s /\ rxr (fst (step cf s (Rx hl body))) = rxr s /\
+  (snd (step cf s (Rx hl body)) = OPre \/
+   exists sz h b, snd (step cf s (Rx hl body)) = OResp KN sz h b 0 0 /\ has h nesn_flag = nesn s).
+Proof.
+  intros A. unfold step. destruct ((256 <=? hl) || (max_rx s - 2 <? blen body)); [simpl; auto|].
+  rewrite A. destruct (next_transmit cf s) as [s' [[sz h] b]] eqn:NT.
+  destruct (next_transmit_frame _ _ _ _ _ _ NT) as (F1 & F2 & F3 & _). simpl.
+  repeat split; auto. right. eauto.
+Qed.
+
+Lemma mic_failure_no_ack cf s hl body :
+  nesn (fst (step cf s (Mic hl body))) = nesn s /\ rxr (fst (step cf s (Mic hl body))) = rxr s /\
+  (snd (step cf s (Mic hl body)) = OPre \/
+   exists k sz h b tc, snd (step cf s (Mic hl body)) = OResp k sz h b 0 tc /\ has h nesn_flag = nesn s).
+Proof.
+  unfold step. destruct ((256 <=? hl) || (max_rx s - 2 <? blen body)); [simpl; auto|].
+  destruct (alloc_front (c_R cf) (rxr s) (max_rx s + c_o cf)).
+  - unfold acknowledge_pdu.
+    destruct (if negb (N.land (mkhdr hl body) 3 =? 0) then ack_bit s (has (mkhdr hl body) nesn_flag) else (s, 0))
+      as [s1 tc] eqn:AB.
+    assert (F : nesn s1 = nesn s /\ rxr s1 = rxr s).
+    { destruct (negb (N.land (mkhdr hl body) 3 =? 0)).
+      - destruct (ack_bit_frame _ _ _ _ AB) as (A1 & A2 & _). auto.
+      - inversion AB; subst; auto. }
+    destruct F as [F1 F2].
+    destruct (next_transmit cf s1) as [s' [[sz h] b]] eqn:NT.
+    destruct (next_transmit_frame _ _ _ _ _ _ NT) as (G1 & G2 & G3 & _). simpl.
+    repeat split; try congruence. right. exists KA, sz, h, b, tc. split; congruence.
+  - destruct (next_transmit cf s) as [s' [[sz h] b]] eqn:NT.
+    destruct (next_transmit_frame _ _ _ _ _ _ NT) as (F1 & F2 & F3 & _). simpl.
+    repeat split; auto. right. exists KN, sz, h, b, 0. auto.
+Qed.
+
+(* the interrupt handler's table: acknowledge() is chosen exactly for "CRC ok, MIC failed, buffer
+   available", received() exactly for a valid PDU with buffer, nothing without anchor *)
+Lemma isr_table :
+  forall a p c b,
+    (isr_decide a p c b = ActAcknowledge <-> (a = true /\ c = true /\ p = false /\ b = true)) /\
+    (isr_decide a p c b = ActReceived <-> (a = true /\ c = true /\ p = true /\ b = true)) /\
+    (isr_decide a p c b = ActNone <-> (a = false \/ (p = false /\ c = false))).
+Proof. intros [|] [|] [|] [|]; vm_compute; intuition congruence. Qed.
+
+(* with the crypto radio a CRC error shows as a missing anchor, and a MIC failure is reported only
+   for non-empty PDUs *)
+Lemma received_pdu_flags_facts crc payload enc size mic bus endc :
+  let '(a, p, c) := received_pdu_flags crc payload enc size mic bus endc in
+  c = true /\ (crc = false -> a = false) /\ (size = 0 -> a = true -> p = true).
+Proof.
+  unfold received_pdu_flags. destruct crc, payload, enc, mic, bus, endc; simpl;
+    repeat split; auto; try discriminate; intros; subst; simpl in *; auto.
+Qed.
+
+(* ===================================================================== Part D: packet counter *)
+Local Transparent N.add N.mul N.sub.
+
+Definition counter_ok (k : counter) : Prop := fst k < 4294967296 /\ snd k < 256.
+
+Lemma counter_increment_spec k :
+  counter_ok k ->
+  counter_ok (counter_increment k) /\
+  counter_value (counter_increment k) = (counter_value k + 1) mod 1099511627776.
+Proof.
+  destruct k as [lo hi]. unfold counter_ok, counter_increment, counter_value. simpl fst; simpl snd.
+  intros [L H].
+  destruct (N.eq_dec (lo + 1) 4294967296) as [E|E].
+  - rewrite E. rewrite N.mod_same by discriminate. simpl (0 =? 0). cbv iota.
+    destruct (N.eq_dec (hi + 1) 256) as [F|F].
+    + rewrite F, N.mod_same by discriminate. split; [split; lia|].
+      replace (lo + 4294967296 * hi + 1) with 1099511627776 by lia.
+      rewrite N.mod_same by discriminate. reflexivity.
+    + rewrite (N.mod_small (hi + 1) 256) by lia. split; [split; lia|].
+      rewrite N.mod_small by lia. lia.
+  - rewrite (N.mod_small (lo + 1)) by lia.
+    destruct (lo + 1 =? 0) eqn:Z; [apply N.eqb_eq in Z; lia|].
+    split; [split; lia|]. rewrite N.mod_small by lia. lia.
+Qed.
+
+Fixpoint counter_after (n : nat) : counter :=
+  match n with O => counter_zero | S n' => counter_increment (counter_after n') end.
+
+(* after n increments the counter holds n (mod 2^40); below 2^39 increments it is n itself, fits
+   the 39 bit CCM packet counter, and different n give different nonces *)
+Lemma counter_after_value n :
+  counter_ok (counter_after n) /\ counter_value (counter_after n) = N.of_nat n mod 1099511627776.
+Proof.
+  induction n as [|n [IH1 IH2]].
+  - split; [split; reflexivity|reflexivity].
+  - simpl counter_after. destruct (counter_increment_spec _ IH1) as (A & B). split; auto.
+    rewrite B, IH2. rewrite Nat2N.inj_succ, <- N.add_1_r.
+    rewrite N.add_mod_idemp_l by discriminate. reflexivity.
+Qed.
+
+Lemma counter_no_reuse n1 n2 :
+  N.of_nat n1 < 549755813888 -> N.of_nat n2 < 549755813888 ->
+  counter_value (counter_after n1) = N.of_nat n1 /\ counter_value (counter_after n1) < 549755813888 /\
+  (counter_bytes (counter_after n1) = counter_bytes (counter_after n2) -> n1 = n2).
+Proof.
+  intros H1 H2.
+  destruct (counter_after_value n1) as ([L1 Hi1] & V1). destruct (counter_after_value n2) as ([L2 Hi2] & V2).
+  rewrite N.mod_small in V1, V2 by lia. split; [auto|]. split; [lia|].
+  intros B. unfold counter_bytes in B. injection B as B0 B1 B2 B3 B4.
+  assert (E : fst (counter_after n1) = fst (counter_after n2)).
+  { pose proof (N.div_mod' (fst (counter_after n1)) 256) as D1.
+    pose proof (N.div_mod' (fst (counter_after n1) / 256) 256) as D2.
+    pose proof (N.div_mod' (fst (counter_after n1) / 65536) 256) as D3.
+    pose proof (N.div_mod' (fst (counter_after n2)) 256) as E1.
+    pose proof (N.div_mod' (fst (counter_after n2) / 256) 256) as E2.
+    pose proof (N.div_mod' (fst (counter_after n2) / 65536) 256) as E3.
+    rewrite N.div_div in D2, D3, E2, E3 by discriminate.
+    change (256 * 256) with 65536 in *. change (65536 * 256) with 16777216 in *.
+    assert (X1 : fst (counter_after n1) / 16777216 < 256) by (apply N.div_lt_upper_bound; lia).
+    assert (X2 : fst (counter_after n2) / 16777216 < 256) by (apply N.div_lt_upper_bound; lia).
+    rewrite (N.mod_small _ 256 X1), (N.mod_small _ 256 X2) in B3. lia. }
+  unfold counter_value in V1, V2. lia.
 Qed.
